@@ -239,7 +239,9 @@ class ExceptionTrace(object):
 
     def render(self, io, simple=False):  # type: (IO, bool) -> None
         if simple:
-            io.write_line("<error>{}</error>".format(str(self._exception)))
+            io.write_line(
+                "<error>{}</error>".format(self._escape(str(self._exception)))
+            )
             return
 
         if not PY36:
@@ -247,6 +249,19 @@ class ExceptionTrace(object):
 
         with io.increment_indent(2):
             return self._render_exception(io, self._exception)
+
+    def _escape(self, text):  # type: (str) -> str
+        """
+        Escapes a text that is not markup, like an exception message,
+        so that the formatter renders it as is.
+        """
+        text = text.replace("<", "\\<")
+
+        if text.endswith("\\"):
+            # A trailing backslash would escape the tag that follows the text
+            text += " "
+
+        return text
 
     def _render_legacy(self, io):
         if hasattr(self._exception, "__traceback__"):
@@ -277,7 +292,7 @@ class ExceptionTrace(object):
             io, "<error>{}</error>".format(inspector.exception_name), True
         )
         io.write_line("")
-        exception_message = io.remove_format(inspector.exception_message).replace(
+        exception_message = self._escape(inspector.exception_message).replace(
             "\n", "\n  "
         )
         self._render_line(io, "<b>{}</b>".format(exception_message))
